@@ -99,6 +99,14 @@ def build(ctx, tier="quick", depth=None):
         zs = s.edge(zs, P[","], Tag("col", False))
         zs = s.edge(zs, N["NUM"], Tag("col", False, "size2"))
         s.edge(zs, P[")"], Tag("col", False), O)
+    # T-SQL IDENTITY(seed, increment) after the type, in any letter case
+    ident = lm.custom("IDENTITY", ["IDENTITY", "identity", "Identity"], "WORD")
+    zi = s.edge(t1, ident, Tag("col", False, "ident"))
+    zi = s.edge(zi, P["("], Tag("col", False))
+    zi = s.edge(zi, N["NUM"], Tag("col", False, "size1"))
+    zi = s.edge(zi, P[","], Tag("col", False))
+    zi = s.edge(zi, N["NUM"], Tag("col", False, "size2"))
+    s.edge(zi, P[")"], Tag("col", False), O)
     # angle types: states (depth, after_comma)
     st = {}
     for d in range(1, D + 1):
@@ -199,5 +207,9 @@ class TypesOracle(DeltaOracle):
             typ = lift(lambda a, b: f"{a} {b}", roles["tw1"], roles["tw2"])
         else:
             typ = roles["tw1"]
-        return {"name": roles["name"], "type": typ, "size": size, "references": None, "unique": False,
-                "primary_key": False, "nullable": True, "default": None, "check": None}
+        out = {"name": roles["name"], "type": typ, "size": size, "references": None, "unique": False,
+               "primary_key": False, "nullable": True, "default": None, "check": None}
+        if "ident" in roles:
+            out["size"] = None
+            out["identity"] = size
+        return out
